@@ -43,10 +43,8 @@ def gen_fragments(defs):
     return ast.unparse(g.generate())
 
 
-def check_fragments_order(e01: bool, e02: bool, e03: bool, e12: bool, e13: bool, e23: bool, r0: int, r1: int, r2: int, r3: int) -> bool:
-    """
-    post: _
-    """
+def _fragments_order(e01, e02, e03, e12, e13, e23, r0, r1, r2, r3) -> bool:
+    # no contract on purpose: CrossHair enforces contracts of called functions and drops the caller's path on failure
     edges = [[False] * 4 for _ in range(4)]
     edges[0][1] = True if e01 else False
     edges[0][2] = True if e02 else False
@@ -259,12 +257,12 @@ def _pipeline_check(strategy: str, plugins: bool, perm: int, salt: int, scen: in
 
 
 def parts_source() -> str:
-    out = ["from harness.C10_order import _pipeline_check, check_fragments_order", ""]
+    out = ["from harness.C10_order import _pipeline_check, _fragments_order", ""]
     for a in (False, True):
         for b in (False, True):
             for c in (False, True):
                 out.append(f"def check_fragorder_{int(a)}{int(b)}{int(c)}(e12: bool, e13: bool, e23: bool, r0: int, r1: int, r2: int, r3: int) -> bool:\n"
-                           f"    \"\"\"\n    post: _\n    \"\"\"\n    return check_fragments_order({a}, {b}, {c}, e12, e13, e23, r0, r1, r2, r3)\n")
+                           f"    \"\"\"\n    post: _\n    \"\"\"\n    return _fragments_order({a}, {b}, {c}, e12, e13, e23, r0, r1, r2, r3)\n")
     for name, strategy, plugins in (("client_plain", "client", False), ("client_plugins", "client", True), ("schema_py", "schema_py", False), ("schema_graphql", "schema_graphql", False)):
         for salt in range(4):
             out.append(f"def check_{name}_s{salt}(perm: int, scen: int) -> bool:\n    \"\"\"\n    post: _\n    \"\"\"\n"
